@@ -273,6 +273,11 @@ class Env:
         self.saved[(app_mod, "threading")] = app_mod.threading
         app_mod.threading = fake_threading
         self.saved[(app_mod, "queue")] = app_mod.queue
+        fake_queue = types.ModuleType("queue")
+        fake_queue.Queue = NBQueue
+        fake_queue.Empty = _queue.Empty
+        fake_queue.Full = _queue.Full
+        app_mod.queue = fake_queue
         FakeEvent.env = self
         SyncThread.env = self
 
@@ -287,6 +292,34 @@ class Env:
 
     def on_wait(self, ev, timeout):
         pass
+
+
+class NBQueue:
+    """queue.Queue whose blocking operations decide at once (virtual time):
+    put on a full queue raises Full, get on an empty one raises Empty."""
+
+    def __init__(self, maxsize=0):
+        self.maxsize = maxsize
+        self.items = []
+
+    def put(self, x, block=True, timeout=None):
+        if self.maxsize > 0 and len(self.items) >= self.maxsize:
+            raise _queue.Full()
+        self.items.append(x)
+
+    def get(self, block=True, timeout=None):
+        if not self.items:
+            raise _queue.Empty()
+        return self.items.pop(0)
+
+    def get_nowait(self):
+        return self.get(False)
+
+    def qsize(self):
+        return len(self.items)
+
+    def empty(self):
+        return not self.items
 
 
 class SyncThread:
